@@ -8,10 +8,11 @@ int_t @p@ReadValues(FILE *, int_t, @T@ *, int_t, int_t);
 void h_val(void) {
   g_ret = @p@ReadValues(in_fp, in_n, in_dest, in_perline, in_persize);
   __CPROVER_assert(0, "canary: reader returns");
-  if (in_n == NMAX && in_perline == PLMAX) __CPROVER_assert(0, "canary: largest instance");
-  if (in_n == NMAX && in_perline == 1) __CPROVER_assert(0, "canary: one item per line");
-  if (in_perline * in_persize == 80) __CPROVER_assert(0, "canary: fields fill the 80 columns");
-  if (in_n == 3 && in_perline == 2 && g_i == 2) __CPROVER_assert(0, "canary: short last line");
+  if (in_n == NMAX) __CPROVER_assert(0, "canary: largest instance");
+  if (in_perline * in_persize >= 78) __CPROVER_assert(0, "canary: fields fill the 80 columns");
+#if PLFIX > 1
+  if (in_n % in_perline == 1 && g_i == in_n - 1) __CPROVER_assert(0, "canary: last line holds one item");
+#endif
   if (g_i < in_n && g_k < in_persize && in_line[g_i / in_perline][(g_i % in_perline) * in_persize + g_k] == 'D') __CPROVER_assert(0, "canary: D exponent in the current field");
   if (in_n == 0) __CPROVER_assert(0, "canary: empty vector");
 }
